@@ -236,7 +236,7 @@ def _run_one(prop, tier, seed, idx, spec, workdir, timeout):
     t0 = time.time()
     env = worker_env(spec.get('env') if isinstance(spec, dict) else None)
     try:
-        p = subprocess.run(cmd, cwd=ROOT, env=env, timeout=timeout,
+        p = subprocess.run(cmd, cwd=ROOT, env=env, timeout=timeout, stdin=subprocess.DEVNULL,
                            stdout=subprocess.PIPE, stderr=subprocess.PIPE)
     except subprocess.TimeoutExpired:
         return {'_status': 'timeout', '_idx': idx, '_wall': time.time() - t0}
